@@ -418,9 +418,12 @@ def judge(ctx, g, root, case):
         ctx.violation('built code is not parsed to its end (%d tokens left)' % len(rest), case)
 
 
-def run_error(ctx, rng, root):
+ERROR_KINDS = ('missing', 'noargs', 'threeargs', 'nonstring', 'badoption', 'badoption2', 'missing_nested')
+
+
+def run_error(ctx, rng, root, index=0):
     from pico8 import tool
-    kind = rng.choice(('missing', 'noargs', 'threeargs', 'nonstring', 'badoption', 'badoption2', 'missing_nested'))
+    kind = ERROR_KINDS[index % len(ERROR_KINDS)]
     files = {'ok.lua': b'ok=1\n'}
     if kind == 'missing':
         main = b'x=1\nrequire("nothere")\n'
@@ -467,7 +470,7 @@ def run_shard(spec, ctx):
         root = tempfile.mkdtemp(prefix='vf-c14-')
         try:
             if spec['kind'] == 'errors':
-                run_error(ctx, rng, root)
+                run_error(ctx, rng, root, i)
                 continue
             g = build_graph(rng, root)
             case = {'files': g['files'], 'argv': [a.replace(root, '$ROOT') for a in g['argv']],
